@@ -1673,3 +1673,60 @@ def result_consumed(fu, call_block, kind='result'):
 			if ci['dest'][0] == 0:
 				return ('returned', 'line %d' % fu.line_of(b))
 	return ('dropped', '')
+
+# ----------------------------------------------------------------------------- field coverage (P11)
+
+def reachable_fns(facts, roots, depth=2, prefix='lightning'):
+	"""functions reachable from roots through resolved in-workspace calls up to `depth`, with closures"""
+	facts.calls
+	seen = {}
+	work = []
+	for r in roots:
+		n = facts.fn(r)
+		seen[n] = 0
+		work.append(n)
+	while work:
+		x = work.pop()
+		d = seen[x]
+		fam = [x] + [c for c in facts.closures_of(x)] if x in facts.fns else [x]
+		for f in fam:
+			seen.setdefault(f, d)
+			if d >= depth:
+				continue
+			for rec in facts.callees_of.get(f, []):
+				c = rec[1]
+				if c.startswith(prefix) or c.startswith('<' + prefix):
+					if c not in seen and c in facts.fns:
+						seen[c] = d + 1
+						work.append(c)
+	return set(seen)
+
+def P11_field_coverage(facts, rule, adt, writer_roots, not_persisted, depth=2, variant=None):
+	"""every field of `adt` is read somewhere under the writer (or is on the reviewed list)"""
+	try:
+		a = facts.adt(adt)
+	except AnchorMissing as e:
+		return [Result(rule, False, 'anchor:' + adt, 'anchor missing: %s' % e)]
+	fields = [rec[1] for rec in facts.adts[a] if rec[1] != '-' and (variant is None or rec[0] == variant)]
+	if not fields:
+		return [Result(rule, False, 'anchor:fields:' + adt, 'anchor missing: %s has no fields' % adt)]
+	try:
+		fns = reachable_fns(facts, writer_roots, depth)
+	except AnchorMissing as e:
+		return [Result(rule, False, 'anchor:writer:' + adt, 'anchor missing: %s' % e)]
+	out = []
+	covered = 0
+	stale = [f for f in not_persisted if f not in fields]
+	for f in fields:
+		key = '%s.%s' % (a, f)
+		recs = facts.fieldacc.get(key, [])
+		hit = any(r[0] in fns for r in recs)
+		if hit:
+			covered += 1
+			continue
+		if f in not_persisted:
+			continue
+		out.append(Result(rule, False, 'unwritten:%s.%s' % (adt.rsplit('::', 1)[-1], f), 'field %s.%s is never read under the writer %s (no longer persisted?) and is not on the reviewed not-persisted list' % (adt.rsplit('::', 1)[-1], f, [w.rsplit('::', 1)[-1] for w in writer_roots]), 1))
+	if not out:
+		out.append(Result(rule, True, 'ok:coverage:' + adt.rsplit('::', 1)[-1], '%s: %d of %d fields are read under the writer; %d on the reviewed not-persisted list' % (adt.rsplit('::', 1)[-1], covered, len(fields), len([f for f in fields if f in not_persisted])), len(fields)))
+	return out
